@@ -114,6 +114,8 @@ pub enum How {
     Collect,
     /// `T::default()` (only meaningful for the empty sequence)
     Default,
+    /// `iter.collect()` from an iterator with an inexact size hint (`loose::loose_iter`)
+    CollectLoose(u8),
 }
 
 impl How {
@@ -433,6 +435,7 @@ where
         How::New => Box::new(W::new_from_slice(&mut v[..])),
         How::FromVec => Box::new(W::from(v)),
         How::Collect => Box::new(v.into_iter().collect::<W>()),
+        How::CollectLoose(mode) => Box::new(crate::loose::loose_iter(v, mode).collect::<W>()),
         How::Default => Box::new(W::default()),
     }
 }
